@@ -159,6 +159,20 @@ theorem classes_exact_all (cfg : Config) (hp : PlainPrintCI cfg) (env : Env) (ws
     fun t => List.map_congr_left (fun c _ => convAtom_documented cfg c)
   simp only [this]
 
+/-- **C03 in verbose mode** (at least one anchor): the same exactness statement for the verbose text, read under `(?x)` -/
+theorem classes_exact_verbose (cfg : Config) (hp : VerbosePrint cfg) (env : Env) (ws : List Str) (st : Stages)
+    (h : regExpFrom cfg env ws = .ok st) (hseg : ∀ w ∈ storedCases cfg env ws, SegOK env w)
+    (hne : ∃ t ∈ storedCases cfg env ws, t ≠ []) (s : Str) (hs : ∀ c ∈ s, Scalar c) :
+    ∃ P, Spec.parse (fmtRegExp cfg st.finalAst) = some (⟨cfg.ci, true⟩, P) ∧
+      (Spec.fullMatch cfg.ci P s = true ↔
+        ∃ t ∈ storedCases cfg env ws, t ≠ [] ∧ atomsDen cfg.ci (t.map (docAtom cfg)) s) := by
+  obtain ⟨P, hP, hm⟩ := Grexv.classes_exact_verbose cfg hp env ws st h hseg hne s hs
+  refine ⟨P, hP, ?_⟩
+  rw [hm]
+  have : ∀ t : Str, t.map (convAtom cfg) = t.map (docAtom cfg) :=
+    fun t => List.map_congr_left (fun c _ => convAtom_documented cfg c)
+  simp only [this]
+
 /-- in particular every non-empty test case is still accepted, whatever the class options -/
 theorem classes_sound (cfg : Config) (hp : PlainPrint cfg) (env : Env) (ws : List Str) (st : Stages)
     (h : regExpFrom cfg env ws = .ok st) (hseg : ∀ w ∈ ws, SegOK env w) (t : Str) (ht : t ∈ ws) (hne : t ≠ []) :
